@@ -719,6 +719,47 @@ def nontrivial_features(spec, pr):
     return ft
 
 
+def case_many_models(rng, ctx):
+    """A stack with more models than 8 bits count (NMR ensemble / trajectory): every model returns with its own coordinates."""
+    import biotite.structure as struc
+    import biotite.structure.io.pdb as pdbmod
+    m = int(rng.choice([255, 256, 257, 300]))
+    n = int(rng.integers(1, 4))
+    st = struc.AtomArrayStack(m, n)
+    st.coord = (rng.integers(-7000, 7000, size=(m, n, 3)) / 8.0).astype(np.float32)        # exact in %8.3f
+    st.chain_id[:] = "A"
+    st.res_id = np.arange(1, n + 1)
+    st.res_name[:] = "GLY"
+    st.atom_name[:] = "CA"
+    st.element[:] = "C"
+    ctx.log({"many_models": m, "atoms": n})
+    ctx.op("many_models")
+    ctx.mark_nontrivial()
+    ctx.state(("many_models", m, n))
+    f = pdbmod.PDBFile()
+    f.set_structure(st)
+    buf = io.StringIO()
+    f.write(buf)
+    g = pdbmod.PDBFile.read(io.StringIO(buf.getvalue()))
+    ctx.oracle("roundtrip_fields")
+    if g.get_model_count() != m:
+        ctx.fail("roundtrip_fields", "get_model_count() = %r for a stack of %d models" % (g.get_model_count(), m))
+    got = g.get_structure()
+    if not isinstance(got, struc.AtomArrayStack) or got.coord.shape != st.coord.shape or not np.array_equal(got.coord, st.coord):
+        bad = None
+        if getattr(got, "coord", None) is not None and got.coord.shape == st.coord.shape:
+            bad = int(np.nonzero((got.coord != st.coord).any(axis=(1, 2)))[0][0]) + 1
+        ctx.fail("roundtrip_fields", "a stack of %d models x %d atoms is read back with another shape or other coordinates (first differing model: %s)"
+                 % (m, n, bad))
+    gc = g.get_coord()
+    if gc.shape != st.coord.shape or not np.array_equal(gc, st.coord):
+        ctx.fail("roundtrip_fields", "get_coord() of %d models differs from the coordinates written" % m)
+    for k_ in sorted({1, min(m, 256), m, int(rng.integers(1, m + 1))}):
+        one = g.get_structure(model=k_)
+        if not np.array_equal(one.coord, st.coord[k_ - 1]):
+            ctx.fail("roundtrip_fields", "get_structure(model=%d) of %d models returns other coordinates than model %d" % (k_, m, k_))
+
+
 def run_case(stratum, rng, ctx):
     if stratum == "hybrid36_w4":
         return case_hy_exhaustive(ctx, 4, W4_CHUNK, ctx.index)
@@ -732,6 +773,8 @@ def run_case(stratum, rng, ctx):
         return case_hy_exhaustive(ctx, 5, W5_CHUNK, chunk)
     if stratum == "hybrid36_edge":
         return case_hy_edge(ctx, rng)
+    if stratum == "roundtrip" and ctx.index % 300 == 299:
+        return case_many_models(rng, ctx)
     spec = G.gen_spec(rng, CCD, ctx.tier)
     if stratum == "limits":
         spec["mutations"] = G.mutate_limits(rng, spec)
